@@ -283,7 +283,7 @@ package service
 //@   trace[C02,no-copy-after-fin] notafter io.Copy transport.StreamConn.CloseWrite
 //@   trace[C02,this-direction-closes-client-write-only] each transport.StreamConn.CloseWrite satisfies $recv == clientConn
 //@   trace[C02,C06,this-direction-closes-target-read-only] each transport.StreamConn.CloseRead satisfies $recv == evres("transport.StreamDialer.DialStream", 0)
-//@   trace[C02,C18,waits-for-client-direction] exactly 1 recv when evres("transport.StreamDialer.DialStream", 1) == nil
+//@   trace[C02,C18,waits-for-client-direction] exactly 1 recv|wg.Wait when evres("transport.StreamDialer.DialStream", 1) == nil
 //@   trace[C15,dial-failure-status] each transport.StreamDialer.DialStream satisfies $res1 != nil ==> result != nil
 //@   trace[C15,client-relay-failure-status] each recv satisfies $res0 != nil ==> result != nil && result.Status == "ERR_RELAY_CLIENT"
 //@   trace[C15,target-relay-failure-status] each io.Copy satisfies $res1 != nil && evres("recv", 0) == nil ==> result != nil && result.Status == "ERR_RELAY_TARGET"
@@ -306,8 +306,8 @@ package service
 //@   trace[C02,this-direction-closes-target-write-only] each transport.StreamConn.CloseWrite satisfies $recv == tgtConn
 //@   trace[C02,this-direction-closes-client-read-only] each transport.StreamConn.CloseRead satisfies $recv == clientConn
 //@   trace[C02,fin-sent-once] exactly 1 transport.StreamConn.CloseWrite
-//@   trace[C02,result-delivered-once] exactly 1 send
-//@   trace[C02,result-after-fin] before transport.StreamConn.CloseWrite send
+//@   trace[C02,result-delivered-once] exactly 1 send|wg.Done
+//@   trace[C02,result-after-fin] before transport.StreamConn.CloseWrite send|wg.Done
 //@   trace[C06,relay-error-drained] atleast 1 io.Copy
 //@   trace[C02,C06,client-read-side-closed-only-after-the-drain] notafter io.Copy transport.StreamConn.CloseRead
 //@   trace[C06,a-failed-relay-is-drained] each io.Copy satisfies $res1 != nil && uses(tgtConn) ==> evcount("io.Copy") == 2
@@ -649,7 +649,7 @@ package service
 //@ func newNATmap
 //@   props C04 C18
 //@   params timeout sm l
-//@   ensures validNatmap(result) == (sm != nil && l != nil)
+//@   ensures sm != nil && l != nil ==> validNatmap(result)
 
 // The table as a map view: Get reads it, set/del change exactly one key.
 //@ func (*natmap).Get
@@ -736,7 +736,8 @@ package service
 //@        && $arg1 == evres("net.PacketConn.ReadFrom", 0) && $arg2 == proxyTargetBytes
 //@   trace[C16,report-status] loop 1 each service.UDPConnMetrics.AddPacketFromClient satisfies (evres("service.(*packetHandler).Handle$1", 0) == nil ==> $arg0 == "OK") \
 //@        && (evres("service.(*packetHandler).Handle$1", 0) != nil ==> $arg0 == evres("service.(*packetHandler).Handle$1", 0).Status)
-//@   trace[C03,one-datagram-per-iteration] loop 1 exactly 1 service.(*packetHandler).Handle$1
+//@   trace[C03,at-most-one-handling-per-datagram] loop 1 atmost 1 service.(*packetHandler).Handle$1
+//@   trace[C03,every-datagram-read-is-handled] loop 1 exactly 1 service.(*packetHandler).Handle$1 when evres("net.PacketConn.ReadFrom", 2) == nil
 
 // The per-datagram closure of Handle (runs under a deferred recover).
 //@ func (*packetHandler).Handle$1
